@@ -380,13 +380,7 @@ def check_case(case, ctx):
             for wl, gl in zip(wr['lines'], gr['lines']):
                 if gl['heights'] is not None and wl['heights'] is not None and len(gl['heights']) == 2 and \
                         HEIGHTS[case['regions'][int(wr['id'][1:]) - 1]['lines'][int(wl['id'].split('-l')[1]) - 1]['h']] is None:
-                    # guessed heights: whatever the guess is, importing the same document again gives the same one
-                    if max(abs(a - b) for a, b in zip(gl['heights'], wl['heights'])) > 1e-6:
-                        ctx.violation('reload-yields-the-same-page', f'{K}/import-depends-on-earlier-imports/guessed-heights',
-                                      f'{desc}: line {wl["id"]} has no stored heights; the first import guessed {wl["heights"]}, a second import of the '
-                                      f'same document {gl["heights"]}')
-                        return
-                    wl['heights'] = gl['heights']
+                    wl['heights'] = gl['heights']      # (that the guess does not depend on earlier imports is a C08 matter and checked there)
         d4 = first_diff(want, got4)
         if d4:
             ctx.violation('reload-yields-the-same-page', f'{K}/import-depends-on-earlier-imports/{field_of(d4[1])}',
